@@ -100,6 +100,24 @@ Theorem C09_uploader_reads_counter_span : forall now w, 0 <= w < 7 -> in_range n
 Proof. exact uploader_reads_what_counter_wrote. Qed.
 Print Assumptions C09_uploader_reads_counter_span.
 
+(* ONE run over ANY set of count files of any programs and weeks (program,
+   recorded end, count): the entries of the reports it writes are exactly the
+   finished files' counts, each under the week named by ITS OWN end date and
+   under its program; the others are left; none is both or neither. *)
+Theorem C09_run_reports_each_file_under_its_week : forall files start wk p n,
+  In (wk, p, n) (run_entries files start) <->
+  exists e, In (p, e, n) files /\ uploader_consumes e start = true /\ wk = uploader_week e.
+Proof. exact run_entries_spec. Qed.
+Print Assumptions C09_run_reports_each_file_under_its_week.
+Theorem C09_run_leaves_unfinished : forall files start p e n,
+  In (p, e, n) (run_leaves files start) <-> In (p, e, n) files /\ uploader_consumes e start = false.
+Proof. exact run_leaves_spec. Qed.
+Print Assumptions C09_run_leaves_unfinished.
+Theorem C09_run_partition : forall files start,
+  (List.length (run_entries files start) + List.length (run_leaves files start) = List.length files)%nat.
+Proof. exact run_partition_length. Qed.
+Print Assumptions C09_run_partition.
+
 (* ... treats the file as finished exactly when that end is before the start
    instant (nanosecond resolution) ... *)
 Theorem C09_finished_iff_end_before_start : forall tend ssec snsec, 0 <= snsec ->
